@@ -8,7 +8,7 @@ from vlib.runner import Violation, call
 
 PID = "C08"
 RULE = ("Hypothesis-generated clique covers: V <= 12 (quick) / 25 vertices numbered from 0 or 1, every vertex covered, "
-        "1..15 cliques with sizes from a generated size set within {2..7} (adjacent sizes, gaps of one or several, a "
+        "1..15 cliques with sizes from a generated size set within {2..10} (adjacent sizes, gaps of one or several, a "
         "single size), overlaps allowed; plus covers returned by EECC.get_EECC on generated graphs. Oracle: per-vertex "
         "counts per occurring size, relative-frequency table, clique-size profile identity, and sampling + generation "
         "with clique motifs of the reported sizes. Non-trivial = >= 2 distinct clique sizes; distinct = canonical JSON")
@@ -27,7 +27,7 @@ def cover_case(draw, tier):
                 "seed": draw(st.integers(0, 2 ** 31))}
     V = draw(st.integers(2, 12 if tier == "quick" else 25))
     base = draw(st.integers(0, 1))
-    sizes = draw(st.lists(st.integers(2, min(7, V)), min_size=1, max_size=4, unique=True))
+    sizes = draw(st.lists(st.integers(2, min(10, V)), min_size=1, max_size=4, unique=True))
     nc = draw(st.integers(1, 15))
     cover = []
     for _ in range(nc):
@@ -46,7 +46,27 @@ def cover_case(draw, tier):
         cover.append(sorted(chunk))
     order = draw(st.permutations(list(range(len(cover)))))
     cover = [[v + base for v in cover[i]] for i in order]
-    return {"cover": cover, "seed": draw(st.integers(0, 2 ** 31))}
+    c = {"cover": cover, "seed": draw(st.integers(0, 2 ** 31))}
+    if draw(st.integers(0, 3)) == 0:
+        # history: the loader is first built on another cover with the same clique sizes (other vertex count /
+        # numbering base), then given this cover through the public setter and re-tabulated
+        V0 = draw(st.integers(max(sizes), 14))
+        b0 = draw(st.integers(0, 1))
+        first = []
+        for s_ in sizes:
+            first.append(sorted(draw(st.lists(st.integers(0, V0 - 1), min_size=s_, max_size=s_, unique=True))))
+        cov = {v for c_ in first for v in c_}
+        miss = [v for v in range(V0) if v not in cov]
+        s_ = min(sizes)
+        while miss:
+            chunk = miss[:s_]
+            miss = miss[s_:]
+            fill = [v for v in range(V0) if v not in chunk]
+            while len(chunk) < s_:
+                chunk.append(fill.pop(0))
+            first.append(sorted(chunk))
+        c["first_cover"] = [[v + b0 for v in c_] for c_ in first]
+    return c
 
 
 def strategy(tier):
@@ -83,7 +103,13 @@ def check(case):
     sizes = sorted({len(c) for c in cover})
     import copy
     given = copy.deepcopy(cover)
-    ld = call("construct", JointDegreeCover, {JN.COVER: cover})
+    if case.get("first_cover") and sorted({len(c) for c in case["first_cover"]}) == sizes:
+        ld = call("construct-first", JointDegreeCover, {JN.COVER: [list(c) for c in case["first_cover"]]})
+        ld.cover = cover
+        call("create_jdd-after-setter", ld.create_jdd)
+        classes.add("cover_replaced_through_setter")
+    else:
+        ld = call("construct", JointDegreeCover, {JN.COVER: cover})
     if cover != given:
         raise Violation("cover-mutated", "the cover passed in was modified")
     if list(ld.motif_sizes) != sizes:
